@@ -46,6 +46,23 @@ pub fn render_for_subprocess(tapes: &Tapes) -> String {
     }
 }
 
+fn big_oracle(_docs: &[&crate::model::Node], bytes: &[Vec<u8>]) -> Result<bool, String> {
+    let mut first: Option<String> = None;
+    for _ in 0..6 {
+        let root = crate::sut::parse_seq(bytes).map_err(|(i, e)| format!("document #{} rejected: {}", i + 1, e))?;
+        let out = format!("{}\n====\n{}", root.to_serde_struct(&crate::sut::opts_quick(false, "D")), root.to_serde_struct(&crate::sut::opts_quick(true, "D")));
+        match &first {
+            None => first = Some(out),
+            Some(f) => {
+                if *f != out {
+                    return Err(format!("two runs over the same documents produced different bytes: {}", first_diff(f, &out)));
+                }
+            }
+        }
+    }
+    Ok(true)
+}
+
 impl Property for C05 {
     fn id(&self) -> &'static str {
         "C05"
@@ -172,6 +189,17 @@ impl Property for C05 {
                 return Err((Failure::new(format!("small-scope exhaustive search: {}", e)).with_detail(json!({"documents": docs})), json!({"small_scope_documents": docs})));
             }
         }
+        // families beyond the small scope (sizes around plausible limits: windows, inline capacities, two-digit suffixes)
+        {
+            let (n, fail) = super::smallscope::run_big_families(big_oracle);
+            st.evaluations += n;
+            st.nontrivial_enumerated += n;
+            st.add("big_families", n);
+            if let Some((label, e, docs)) = fail {
+                let first = e.lines().next().unwrap_or("").to_string();
+                return Err((Failure::new(format!("family `{}`: {}", label, first)).with_detail(json!({"documents": docs, "message": e})), json!({"big_family": label})));
+            }
+        }
         // across processes: P fresh processes of this binary render the same tapes
         let (n, procs) = match tier {
             Tier::Quick => (200, 4),
@@ -239,6 +267,9 @@ impl Property for C05 {
         }
     }
     fn replay_custom(&self, payload: &Value) -> Result<(), Failure> {
+        if let Some(l) = payload["big_family"].as_str() {
+            return super::smallscope::replay_big_family(l, big_oracle).map_err(Failure::new);
+        }
         if let Some(a) = payload["small_scope_documents"].as_array() {
             let docs: Vec<Vec<u8>> = a.iter().map(|d| d.as_str().unwrap_or("").as_bytes().to_vec()).collect();
             let mut first: Option<String> = None;
